@@ -51,11 +51,12 @@ namespace vf::prog {
         std::vector<EventSpec> events;
         int nwaves = 1;
         int nsubmitters = 0;
+        int mass_event = -1;    // id of the event nearly all tasks of a wave wait for (-1: none)
 
         std::string describe() const
         {
             std::ostringstream os;
-            os << "{\"waves\": " << nwaves << ", \"submitters\": " << nsubmitters << ", \"tasks\": [";
+            os << "{\"waves\": " << nwaves << ", \"submitters\": " << nsubmitters << ", \"mass_wait_event\": " << mass_event << ", \"tasks\": [";
             for (std::size_t i = 0; i < tasks.size(); ++i)
             {
                 auto const& t = tasks[i];
@@ -205,6 +206,37 @@ namespace vf::prog {
                     int pos = lo + static_cast<int>(t.below(static_cast<std::uint32_t>(ops.size() - static_cast<std::size_t>(lo) + 1)));
                     ops.insert(ops.begin() + pos, Op{OP_WAIT, id});
                 }
+                p.events.push_back(std::move(ev));
+            }
+        }
+        // mass wait: (nearly) every earlier task of the last task's wave blocks on one event that the last task
+        // signals -- many simultaneously suspended tasks per queue while the signaller may still be staged (the
+        // thread-count limits of the queues, pika.thread_queue.max_thread_count, become reachable)
+        if (opt.allow_events && n >= 6 && t.chance(1, 3))
+        {
+            EventSpec ev;
+            ev.kind = t.pick({0, 3, 1, 2});
+            ev.signaller = n - 1;
+            int wave = p.tasks[static_cast<std::size_t>(ev.signaller)].wave;
+            for (int w = 0; w < ev.signaller && ev.waiters.size() < 200; ++w)
+            {
+                auto const& ws = p.tasks[static_cast<std::size_t>(w)];
+                if (ws.wave != wave || ws.stack == 4) continue;
+                ev.waiters.push_back(w);
+            }
+            if (ev.waiters.size() >= 3)
+            {
+                int id = static_cast<int>(p.events.size());
+                p.tasks[static_cast<std::size_t>(ev.signaller)].ops.push_back(Op{OP_SIGNAL, id});
+                for (int w : ev.waiters)
+                {
+                    auto& ops = p.tasks[static_cast<std::size_t>(w)].ops;
+                    int lo = 0;
+                    for (std::size_t k = 0; k < ops.size(); ++k)
+                        if (ops[k].k == OP_SPAWN) lo = static_cast<int>(k) + 1;
+                    ops.insert(ops.begin() + lo, Op{OP_WAIT, id});
+                }
+                p.mass_event = id;
                 p.events.push_back(std::move(ev));
             }
         }
